@@ -181,3 +181,14 @@ Proof. induction acts as [|a acts IH]; intros n H; cbn [nrun fold_left]; [exact 
 
 Theorem Extra_reach c acts : Extra (nreach c acts).
 Proof. apply Extra_run, Extra_init. Qed.
+
+Theorem markers_reach c acts :
+  let n := nreach c acts in
+  (clients_alive (na n) = false -> 1 <= count is_acd (cq (na n)) + b2n (all_clients_dropped (mx (na n)))) /\
+  (clients_alive (nb n) = false -> 1 <= count is_acd (cq (nb n)) + b2n (all_clients_dropped (mx (nb n)))) /\
+  cnt m_gb (lab n) + b2n (goodbye_received (mx (nb n))) = b2n (goodbye_sent (mx (na n))) /\
+  cnt m_gb (lba n) + b2n (goodbye_received (mx (na n))) = b2n (goodbye_sent (mx (nb n))).
+Proof.
+  intros n. destruct (Extra_reach c acts) as [C1 C2 G1 G2]. fold n in C1, C2, G1, G2.
+  unfold cl_ok, cl_val in C1, C2. repeat split; auto; intros E; rewrite E in *; assumption.
+Qed.
